@@ -176,6 +176,8 @@ func c13Archives() []c13Archive {
 		mk([]tEntry{{name: "big", perm: 0o644, data: fill(150*1024+3000, 7)}, {name: "after", perm: 0o644, data: fill(100, 8)}}),
 		mk([]tEntry{{name: "p/q/r", perm: 0o644, data: fill(1024, 9)}, {name: "p", isDir: true, perm: 0o700}, {name: "s", perm: 0o644, data: fill(3000, 10)}}),
 		mk([]tEntry{{name: "e1", perm: 0o644, data: fill(600, 11)}, {name: "e2", perm: 0o644, data: fill(600, 12)}, {name: "e3", perm: 0o644, data: fill(600, 13)}}),
+		// the same base name at several depths, the big one last: announcements must be by full name
+		mk([]tEntry{{name: "sub/n", perm: 0o644, data: fill(700, 14)}, {name: "t/n", perm: 0o600, data: fill(0, 15)}, {name: "n", perm: 0o644, data: fill(150*1024+2000, 16)}}),
 	}
 }
 
@@ -385,7 +387,13 @@ func runC13(r *Rng, n int, replay string) {
 				started++
 			}
 		}
-		startSome(1 + nOpeners/3) // before any byte arrived
+		// some openers start at random points of the stream (in the middle of a large entry, say), the others early
+		lateAt := map[int]int{}
+		for k := 0; k < nOpeners/2; k++ {
+			lateAt[r.Intn(blocks+1)]++
+		}
+		early := nOpeners - nOpeners/2
+		startSome(1 + early/3) // before any byte arrived
 		// release the stream block by block, starting openers on the way
 		for b := 0; b < blocks; b++ {
 			if mode == "cancel" && b == point {
@@ -401,8 +409,15 @@ func runC13(r *Rng, n int, replay string) {
 				}
 			}
 			sr.release(512)
+			if k := lateAt[b]; k > 0 {
+				time.Sleep(200 * time.Microsecond) // let the reader take what was released
+				startSome(k)
+				early += k
+			}
 			if b%3 == 0 {
-				startSome(1)
+				if started < early {
+					startSome(1)
+				}
 				select {
 				case dest.pause <- struct{}{}:
 				default:
@@ -452,6 +467,9 @@ func runC13(r *Rng, n int, replay string) {
 			switch {
 			case res.err == nil && isFile && !res.isD && !bytes.Equal(res.data, w):
 				c.fail(fmt.Sprintf("%s: Open(%q) succeeded with %d of the entry's %d bytes", hdr, res.name, len(res.data), len(w)), "stream:"+mode+":partial")
+			case res.err != nil && isFile && mode == "clean":
+				// nothing fails in this run: an Open of an entry waits for it and then succeeds
+				c.fail(fmt.Sprintf("%s: Open(%q) of an entry of a complete, undisturbed stream failed: %v", hdr, res.name, res.err), "stream:clean:entry-open-failed")
 			case res.err == nil && res.name == "nope" && mode == "clean":
 				c.fail(fmt.Sprintf("%s: Open of a missing name succeeded", hdr), "stream:"+mode+":missing-opened")
 			}
